@@ -73,9 +73,25 @@ class C06(Prop):
         for i in range(ctx.pick(40, 600)):
             out.append(("view", {"k": "view", **commit_history(rng, rng.randint(20, ctx.pick(90, 250)),
                                                                 heavy_delete=(i % 4 == 0), lazy=(i % 10 != 9))}))
-        # crash runs: every kill point of a few histories
-        for i in range(ctx.pick(2, 12)):
-            h = commit_history(rng, rng.randint(12, 30) if i % 2 else 60, heavy_delete=(i % 3 == 0))
+        # crash runs: every kill point of a few histories; the first two are directed: (a) a bucket holding more events
+        # than the commit threshold is deleted while writes are buffered (a commit between its two DELETEs would split it),
+        # (b) a bulk insert mixing upserts and new events, and a rejected replace, are followed by more operations
+        directed = []
+        m0 = storegen.mk_meta(rng, "b0")
+        big = [[0, "create", "b0", m0], [0, "create", "b1", storegen.mk_meta(rng, "b1")],
+               [0, "bulk", "b0", [storegen.rand_ev(rng) for _ in range(45)]]]
+        big += [[1000, "insert", "b1", storegen.rand_ev(rng)] for _ in range(4)]
+        big += [[rng.choice([0, 11_000_000]), "delbucket", "b0"], [0, "insert", "b1", storegen.rand_ev(rng)],
+                [0, "create", "b0", m0], [0, "insert", "b0", storegen.rand_ev(rng)]]
+        directed.append({"lazy": True, "ops": big})
+        mixed = [[0, "create", "b0", m0], [0, "insert", "b0", storegen.rand_ev(rng)], [0, "insert", "b0", storegen.rand_ev(rng)],
+                 [0, "bulk", "b0", [[["ref", 0]] + storegen.rand_ev(rng)[1:], storegen.rand_ev(rng), [["ref", 1]] + storegen.rand_ev(rng)[1:], storegen.rand_ev(rng)]],
+                 [0, "insert", "b0", storegen.rand_ev(rng)], [0, "replace", "b0", ["ref", 100070], storegen.rand_ev(rng)],
+                 [0, "insert", "b0", storegen.rand_ev(rng)], [0, "create", "b1", storegen.mk_meta(rng, "b1")],
+                 [0, "update", "b1", {"name": "renamed"}], [0, "insert", "b1", storegen.rand_ev(rng)], [0, "delete", "b0", ["ref", 0]]]
+        directed.append({"lazy": True, "ops": mixed})
+        for i in range(ctx.pick(2, 12) + len(directed)):
+            h = directed[i] if i < len(directed) else commit_history(rng, rng.randint(12, 30) if i % 2 else 60, heavy_delete=(i % 3 == 0))
             for be in ("sqlite", "peewee"):
                 hh = h if be == "sqlite" else {"lazy": True, "ops": [o for o in h["ops"] if o[1] != "read"]}
                 # number of statements is found by a dry run inside gen (cheap: one child)
